@@ -377,3 +377,51 @@ for meth, extra in USES:
         elif meth == "__eq__":
             c.ensures("implies(v * f == k and k != 0, result == True)", "equal-base-values-compare-equal")
         c.no_raise()
+
+
+# ---- a plain number on the left of + or -: the result is in the units of the LEFT operand (none), its value the sum / difference of the
+#      base values; the quantity on the right may be in a dimensionless table unit with a factor ----------------------------------------------
+DIMLESS = [("%", 0.01), ("ppth", 0.001), ("[pi]", 3.141592653589793), (None, 1.0)]
+
+
+for meth, sign in (("__radd__", "+"), ("__rsub__", "-")):
+    @contract(f"{Q}.{meth}", ["C06", "C07"], name=f"Quantity.{meth}[number-and-dimensionless-quantity]")
+    def _(c, meth=meth, sign=sign):
+        c.bound = "quantities in %, ppth, [pi] and without unit; both numbers symbolic"
+        for u, f in DIMLESS:
+            def pre(bd, u=u, f=f):
+                q = bd.new(Q, bd.real("x"), u) if u else bd.new(Q, bd.real("x"))
+                k = bd.real("k")
+                return dict(args=[q, k], env=dict(x=bd.getattr(bd.getattr(q, "magnitude"), "value"), k=k, f=f, q=q))
+            c.scenario(f"k {sign} {u or 'number'}", pre)
+        c.ensures("result.baseunits.expression is None", "units-of-the-left-operand")
+        c.ensures(f"near(result.magnitude.value, k {sign} x * f)" if sign == "+" else "near(result.magnitude.value, k - x * f)", "base-value-is-the-sum" if sign == "+" else "base-value-is-the-difference")
+        c.ensures("obs(q) == old(obs(q))", "operand-reports-the-same")
+        c.no_raise()
+
+    @contract(f"{Q}.{meth}", ["C06"], name=f"Quantity.{meth}[number-and-dimensional-quantity]")
+    def _(c, meth=meth, sign=sign):
+        for u in ("m", "k:g m s^-2"):
+            c.scenario(f"k {sign} {u}", (lambda u: lambda bd: dict(args=[bd.new(Q, bd.real("x"), U.render(T(u))), bd.real("k")]))(u))
+        c.raises("True", label="refused")
+
+
+# ---- operands of different number kinds (a Decimal magnitude next to a float one): the product / quotient is computed from copies, each
+#      operand keeps its value AND its number type ---------------------------------------------------------------------------------------------
+from decimal import Decimal as _Dec
+
+MIXED = [("decimal*float", _Dec("2"), 3.0, "__mul__"), ("float*decimal", 3.0, _Dec("2"), "__mul__"), ("decimal/float", _Dec("3"), 2.0, "__truediv__"), ("float/decimal", 3.0, _Dec("2"), "__truediv__")]
+
+
+for label, va, vb, meth in MIXED:
+    @contract(f"{Q}.{meth}", ["C07"], name=f"Quantity.{meth}[{label}]")
+    def _(c, va=va, vb=vb, meth=meth):
+        c.bound = "one Decimal and one float magnitude (concrete values), as quantities and with the second operand a bare number"
+        for bare in (False, True):
+            def pre(bd, bare=bare):
+                a = bd.new(Q, bd.const(va), "m")
+                b = bd.const(vb) if bare else bd.new(Q, bd.const(vb), "s")
+                return dict(args=[a, b], env=dict(qa=a, qb=bd.new(Q, 1.0, "s") if bare else b))
+            c.scenario("bare-number" if bare else "two-quantities", pre)
+        c.ensures("obs(qa) == old(obs(qa)) and obs(qb) == old(obs(qb))", "operands-keep-value-and-number-type")
+        c.no_raise()
